@@ -124,6 +124,10 @@ func (pres *Presence) UnmarshalXML(d *xml.Decoder, start xml.StartElement) error
 					err = d.DecodeElement(&pres.Priority, &tt)
 				case "error":
 					err = d.DecodeElement(&pres.Error, &tt)
+				default:
+					// Unknown child: skip it entirely, so that its descendants are
+					// neither mistaken for our own children nor for our end tag.
+					err = d.Skip()
 				}
 				if err != nil {
 					return err
